@@ -21,6 +21,21 @@
  *   seek <o> <off> <set|cur|end|bad> | tell <o> | flush <o> | eof <o>
  *   read <o> <size> | write <o> <len> <seed> | writehex <o> <hex|-> | print <o> <int> | scan <o>
  *   dump <file> | rm <file>
+ *   drop <o>                              the collector as the closer: the slot is cleared, the stack below is scrubbed and a
+ *                                         collection is forced (GC_Mark + GC_Sweep → File_Del → File_Close); expected: what `del` does
+ * Process (the second Stream class of src/File.c: the same wrappers over popen / pclose; slots 0..1 = stack objects
+ * `$(Process, NULL)`, 2..3 = heap objects; commands 0 = `true`, 1 = `false`, 10+k = `cat <input k>` when reading, `cat > <sink k>`
+ * when writing; popen and pclose are interposed like fopen / fclose, pipe handles are written p<id>):
+ *   pgen <k> <len> <seed>                 fill input k of `cat`
+ *   pnew <o> <cmd> <mode> | pnew0 <o> | pnew1 <o> <cmd>     new(Process, $S(cmd), $S(mode)) / with too few arguments
+ *   popen <o> <cmd> <mode> | pclose <o> | pstop <o> | pdel <o> | pwith <o> <leave> <n>
+ *   pread <o> <size> | pwrite <o> <len> <seed> | peof <o> | ptell <o> | pseek <o> <off> <wh> | pflush <o> | pprint <o> <int> | pscan <o>
+ * Oracle for these: refusal on a closed Process (sig=closed-not-refused); close / stop / with-exit / del leave the object closed
+ * whatever the command's exit status (sig=not-closed) and raise IOError exactly for a non-zero status (`system()` of the same
+ * command, sig=exc-mismatch); bytes read = the input file's bytes (sig=bytes-mismatch), the sink holds what was written
+ * (sig=file-content); popen / pclose never on NULL or a dead handle (sig=stale-handle), live pipes = pipes held
+ * (sig=handle-leak, stale-handle-kept), at the end successful popens == pcloses (sig=close-count).
+ * An input pipe is read to its end inside the interposed pclose before the real one (so `cat` is never killed by SIGPIPE).
  * Ops outside the domain the model covers are answered `O <op> unsup` / `busy` by both sides and not executed: a second
  * stream on a file, a transfer in the other direction without fseek/fflush in between (undefined in C), a write
  * beyond 1 MiB, octal/hex/overlong numbers for scan, anything but bounded writes on /dev/full.
@@ -39,7 +54,8 @@
  *   - with blocks: the source expression is evaluated exactly once (sig=with-reeval), its init clause makes exactly the fopen the
  *     expression asks for (sig=with-init-calls), leaving through the step clause makes exactly one stdio call, fclose of the handle
  *     the loop variable's File held when the body ended (sig=with-exit-calls), break / return / exception make none;
- *   - copy / assign make no stdio call (sig=copy-calls) and a copy of a closed File is closed.
+ *   - copy / assign make no stdio call (sig=copy-calls) and a copy of a closed File is closed;
+ *   - drop: the forced collection makes exactly the fclose `del` would make and the handle is gone (sig=collector-close).
  * Known findings (the oracle reports them under their own signature; generated inputs stay out of these regions):
  *   sig=kf-c20-with-early-exit       a with block left by break / return / an exception while its File is open: stop_in does not
  *                                    run, the stream stays open ("leaving a with block closes the stream exactly once" fails);
@@ -89,6 +105,14 @@ static int n_fclose_dead = 0;                                                   
 #define KF_EARLY "kf-c20-with-early-exit"
 static int holders(FILE* fp);
 
+/* pipes (Process): popen / pclose */
+FILE* __real_popen(const char*, const char*);
+int __real_pclose(FILE*);
+static FILE* plive_fp[MAXLIVE]; static int plive_id[MAXLIVE]; static int plive_rd[MAXLIVE]; static int nplive = 0;
+static int n_popen_ok = 0, n_popen_fail = 0, n_pclose = 0;
+static int plive_index(FILE* fp) { for (int i = 0; i < nplive; i++) if (plive_fp[i] == fp) return i; return -1; }
+#define PIPE_BASE 1000
+
 static int live_index(FILE* fp) { for (int i = 0; i < nlive; i++) if (live_fp[i] == fp) return i; return -1; }
 static int dead_index(FILE* fp) { for (int i = ndead - 1; i >= 0; i--) if (dead_fp[i] == fp) return i; return -1; }
 static int in_ids(const int* t, int n, int id) { for (int i = 0; i < n; i++) if (t[i] == id) return 1; return 0; }
@@ -103,6 +127,8 @@ static int check_handle(const char* fn, FILE* fp) {
   if (fp == NULL) { rec_call(fn, "NULL"); X("sig=stale-handle line=%zu what=%s called with NULL", cur_line, fn); return -1; }
   int i = live_index(fp);
   if (i < 0) {
+    int pi = plive_index(fp);
+    if (pi >= 0) { snprintf(b, sizeof b, "p%d", plive_id[pi]); rec_call(fn, b); return PIPE_BASE + pi; }
     int d = dead_index(fp);
     if (d >= 0) {
       snprintf(b, sizeof b, "%d", dead_id[d]); rec_call(fn, b);
@@ -130,6 +156,7 @@ int __wrap_fclose(FILE* fp) {
   if (passthrough(fp)) return __real_fclose(fp);
   int i = check_handle("fclose", fp);
   if (i < 0) return EOF;
+  if (i >= PIPE_BASE) { X("sig=stale-handle line=%zu what=fclose called with the handle of a pipe", cur_line); return EOF; }
   int id = live_id[i];
   live_fp[i] = live_fp[nlive-1]; live_id[i] = live_id[nlive-1]; nlive--;
   n_fclose++;
@@ -138,6 +165,29 @@ int __wrap_fclose(FILE* fp) {
     return __real_fflush(fp) == 0 ? 0 : EOF;
   }
   return __real_fclose(fp);
+}
+FILE* __wrap_popen(const char* cmd, const char* mode) {
+  if (!trk) return __real_popen(cmd, mode);
+  FILE* r = __real_popen(cmd, mode);
+  if (r) {
+    char b[32]; int id = ++n_popen_ok;
+    if (nplive < MAXLIVE) { plive_fp[nplive] = r; plive_id[nplive] = id; plive_rd[nplive] = mode[0] == 'r'; nplive++; }
+    snprintf(b, sizeof b, "p%d", id); rec_call("popen", b);
+  } else { n_popen_fail++; rec_call("popen", "fail"); }
+  return r;
+}
+int __wrap_pclose(FILE* fp) {
+  if (!trk) return __real_pclose(fp);
+  char b[32];
+  if (fp == NULL) { rec_call("pclose", "NULL"); X("sig=stale-handle line=%zu what=pclose called with NULL", cur_line); return -1; }
+  int i = plive_index(fp);
+  if (i < 0) { rec_call("pclose", "STALE"); X("sig=stale-handle line=%zu what=pclose called with a handle that is not open (a second pclose for one popen)", cur_line); return -1; }
+  snprintf(b, sizeof b, "p%d", plive_id[i]); rec_call("pclose", b);
+  int rd = plive_rd[i];
+  plive_fp[i] = plive_fp[nplive-1]; plive_id[i] = plive_id[nplive-1]; plive_rd[i] = plive_rd[nplive-1]; nplive--;
+  n_pclose++;
+  if (rd) { char t[4096]; while (__real_fread(t, 1, sizeof t, fp) > 0) {} }       /* let the command finish writing */
+  return __real_pclose(fp);
 }
 int __wrap_fseek(FILE* fp, long off, int wh) { if (passthrough(fp)) return __real_fseek(fp, off, wh); if (check_handle("fseek", fp) < 0) return -1; return __real_fseek(fp, off, wh); }
 long __wrap_ftell(FILE* fp) { if (passthrough(fp)) return __real_ftell(fp); if (check_handle("ftell", fp) < 0) return -1; return __real_ftell(fp); }
@@ -587,16 +637,423 @@ static void exec_shared(int o, int sh, const char* op, char** tok, int nt) {
   O("%s unsup", op);
 }
 
+/* ------------------------------------------------------------------------------------------ Process (popen / pclose) */
+#define NPROC 4
+#define NPSTACK 2
+#define NPIN 4
+#define C_TRUE 0
+#define C_FALSE 1
+#define C_CAT 10
+#define PCAP 65536
+static var* pobjs;
+static struct { int cmd; char mode; long pos; unsigned char* w; size_t wlen; } pk[NPROC];      /* cmd = -1: closed */
+static unsigned char* pin_data[NPIN]; static size_t pin_len[NPIN];
+static int pin_with[NPROC];
+
+static FILE* praw(int o) { return pobjs[o] ? ((struct Process*)pobjs[o])->proc : NULL; }
+static int cmd_ok(int c) { return c == C_TRUE || c == C_FALSE || (c >= C_CAT && c < C_CAT + NPIN); }
+static const char* PMODES[] = { "r", "w", "r+", "x", NULL };
+static int pmode_ok(const char* m) { for (int i = 0; PMODES[i]; i++) if (!strcmp(PMODES[i], m)) return 1; return 0; }
+static void cmd_text(int c, const char* mode, char* out, size_t n) {
+  if (c == C_TRUE) snprintf(out, n, "true");
+  else if (c == C_FALSE) snprintf(out, n, "false");
+  else if (mode[0] == 'w') snprintf(out, n, "exec cat > '%s/q%d.bin'", tmpdir, c - C_CAT);
+  else snprintf(out, n, "exec cat '%s/p%d.bin'", tmpdir, c - C_CAT);
+}
+static int pbusy(int c, int except) {
+  if (c < C_CAT) return 0;
+  for (int o = 0; o < NPROC; o++) if (o != except && pk[o].cmd == c) return 1;
+  return 0;
+}
+static void write_input(int k) {
+  char p[400]; snprintf(p, sizeof p, "%s/p%d.bin", tmpdir, k);
+  FILE* f = __real_fopen(p, "wb"); if (!f) return;
+  if (pin_len[k]) __real_fwrite(pin_data[k], 1, pin_len[k], f);
+  __real_fclose(f);
+}
+static void pst_text(int o, char* out, size_t n) {
+  if (!pobjs[o]) { snprintf(out, n, "none"); return; }
+  FILE* fp = praw(o);
+  if (!fp) { snprintf(out, n, "closed"); return; }
+  int i = plive_index(fp);
+  if (i < 0) { snprintf(out, n, "STALE"); return; }
+  snprintf(out, n, "p%d:%d", plive_id[i], __real_feof(fp) ? 1 : 0);
+}
+static void check_paccounting(void) {
+  for (int o = 0; o < NPROC; o++) {
+    FILE* fp = praw(o); if (!fp) continue;
+    if (plive_index(fp) < 0) { X("sig=stale-handle-kept line=%zu what=Process %d keeps a handle that is not open (pclose was already called for it)", cur_line, o); continue; }
+    for (int q = 0; q < o; q++) if (praw(q) == fp) X("sig=stale-handle-kept line=%zu what=Process objects %d and %d hold the same handle", cur_line, q, o);
+  }
+  int unheld = 0;
+  for (int i = 0; i < nplive; i++) { int h = 0; for (int o = 0; o < NPROC; o++) if (praw(o) == plive_fp[i]) h++; if (!h) unheld++; }
+  if (unheld) X("sig=handle-leak line=%zu what=%d pipes are open that no Process object holds", cur_line, unheld);
+}
+static void pemit(int o, const char* op, const char* extra) {
+  char st[64]; pst_text(o, st, sizeof st);
+  O("%s exc=%s%s%s st=%s calls=%s plive=%d", op, v_exc_name(r_exc), extra[0] ? " " : "", extra, st, ncalls ? callbuf : "-", nplive);
+  check_paccounting();
+}
+/* the command's verdict, from libc: does it end with a non-zero wait status? */
+static int cmd_fails(int c) {
+  if (c == C_TRUE || c == C_FALSE) { int st = system(c == C_TRUE ? "true" : "false"); return st != 0; }
+  return 0;
+}
+/* the close path ran on an open Process (sclose, stop, with-exit, del, reopen): shadow bookkeeping + what the sink must hold */
+static int pshadow_close_x(int o, const char* op, int sink_reused) {
+  int c = pk[o].cmd; int fails = cmd_fails(c);
+  if (c >= C_CAT && pk[o].mode == 'w' && !sink_reused) {
+    char p[400]; snprintf(p, sizeof p, "%s/q%d.bin", tmpdir, c - C_CAT);
+    FILE* f = __real_fopen(p, "rb"); size_t n = f ? __real_fread(buf2, 1, PCAP + 8, f) : 0; if (f) __real_fclose(f);
+    if (n != pk[o].wlen || memcmp(buf2, pk[o].w, n) != 0)
+      X("sig=file-content line=%zu what=after %s the sink of `cat` holds %zu bytes, %zu were written through the Process (or they differ)", cur_line, op, n, pk[o].wlen);
+  }
+  pk[o].cmd = -1; pk[o].pos = 0; pk[o].wlen = 0;
+  return fails;
+}
+static int pshadow_close(int o, const char* op) { return pshadow_close_x(o, op, 0); }
+static void pmust_be_closed(int o, const char* op) {
+  if (pobjs[o] && praw(o) != NULL) X("sig=not-closed line=%zu what=after %s the Process still holds a handle", cur_line, op);
+}
+static void pmirror_open(int o, int c, const char* mode, const char* op, int was_open) {
+  var want = NULL;
+  /* a reopen for writing on the sink just closed: the new `cat >` has truncated it by now */
+  if (was_open) { if (pshadow_close_x(o, op, c == pk[o].cmd && mode[0] == 'w')) want = IOError; }
+  if (!want) {
+    if (strcmp(mode, "r") && strcmp(mode, "w")) want = IOError;        /* popen: EINVAL */
+    else { pk[o].cmd = c; pk[o].mode = mode[0]; pk[o].pos = 0; pk[o].wlen = 0; }
+  }
+  expect_exc(op, want);
+  if (pobjs[o]) {
+    if (want && praw(o) != NULL) X("sig=not-closed line=%zu what=%s failed but the Process holds a handle", cur_line, op);
+    if (!want && praw(o) == NULL) X("sig=exc-mismatch line=%zu what=%s succeeded but the Process holds no handle", cur_line, op);
+  }
+}
+static void pclose_like(int o, const char* op, int which) {       /* 0 sclose, 1 stop */
+  int was_open = praw(o) != NULL;
+  begin_op(); trk = 1;
+  if (which == 0) V_TRY(r_exc, sclose(pobjs[o])); else V_TRY(r_exc, stop(pobjs[o]));
+  trk = 0;
+  if (!refused_if_closed(o, op, was_open)) expect_exc(op, pshadow_close(o, op) ? IOError : NULL);
+  pmust_be_closed(o, op);
+  pemit(o, op, "");
+}
+static void pwith_run(char** lines, size_t i, size_t end, int o, int leave, struct wctx* cx) {
+  with (f in pobjs[o]) {
+    trk = 0; cx->entered = 1;
+    r_exc = NULL;
+    if (ncalls) X("sig=with-init-calls line=%zu what=the init clause of with made the stdio calls (%s), expected none", cur_line, callbuf);
+    pemit(o, "pwith-enter", "");
+    with_depth++; pin_with[o]++;
+    run_range(lines, i + 1, end);
+    with_depth--; pin_with[o]--;
+    if (leave == LV_THROW) throw(ValueError, "leaving the with block");
+    begin_op(); cur_line = i + 1;
+    if (leave == LV_BRK) break;
+    if (leave == LV_RET) return;
+    cx->hid = (praw(o) && plive_index(praw(o)) >= 0) ? plive_id[plive_index(praw(o))] : 0;
+    trk = 1;
+    if (leave == LV_CONT) continue;
+  }
+}
+static void exec_pwith(char** lines, size_t* ip, size_t hi, size_t i, int o, char** tok, int nt) {
+  char* e;
+  if (nt != 4) { O("bad-op"); return; }
+  const char* lvs = tok[2];
+  int leave = !strcmp(lvs, "fall") ? LV_FALL : !strcmp(lvs, "cont") ? LV_CONT : !strcmp(lvs, "brk") ? LV_BRK : !strcmp(lvs, "throw") ? LV_THROW : !strcmp(lvs, "ret") ? LV_RET : -1;
+  long n = strtol(tok[3], &e, 10);
+  if (leave < 0 || *e || n < 0 || tok[3][0] == '-' || tok[3][0] == '+' || with_depth > MAXDEPTH) { O("bad-op"); return; }
+  size_t end = i + 1 + (size_t)n; if (end > hi || end < i) end = hi;
+  struct wctx cxs = { 0, 0 }; struct wctx* cx = &cxs;
+  var wexc = NULL;
+  cur_line = i + 1;
+  begin_op(); trk = 1;
+  V_TRY(wexc, pwith_run(lines, i, end, o, leave, cx));
+  trk = 0;
+  int hid = cx->hid;
+  cur_line = i + 1; r_exc = wexc; *ip = end;
+  if (!cx->entered) { X("sig=with-not-entered line=%zu what=the with block over a Process variable was not entered", cur_line); pemit(o, "pwith-enter", ""); return; }
+  if (leave == LV_THROW || leave == LV_BRK || leave == LV_RET) {
+    const char* how = leave == LV_THROW ? "an exception" : leave == LV_BRK ? "break" : "return";
+    if (leave == LV_THROW) { calllen = 0; callbuf[0] = 0; ncalls = 0; }
+    else if (r_exc || ncalls) X("sig=with-exit-calls line=%zu what=%s out of a with block raised %s and made the stdio calls (%s)", cur_line, how, v_exc_name(r_exc), ncalls ? callbuf : "-");
+    if (praw(o) != NULL)
+      X("sig=" KF_EARLY " line=%zu what=the with block was left by %s: stop_in did not run and the Process still holds an open stream", cur_line, how);
+    pemit(o, leave == LV_THROW ? "pwith-abort" : leave == LV_BRK ? "pwith-break" : "pwith-return", "");
+    return;
+  }
+  int was_open = pk[o].cmd >= 0;
+  if (!refused_if_closed(o, "pwith-exit", was_open)) {
+    expect_exc("pwith-exit", pshadow_close(o, "pwith-exit") ? IOError : NULL);
+    char want[32]; snprintf(want, sizeof want, "pclose:p%d", hid);
+    if (strcmp(callbuf, want) != 0)
+      X("sig=with-exit-calls line=%zu what=leaving the with block made the stdio calls (%s), expected exactly %s", cur_line, ncalls ? callbuf : "-", want);
+  }
+  pmust_be_closed(o, "pwith-exit");
+  pemit(o, "pwith-exit", "");
+}
+
+static int is_proc_op(const char* op) {
+  static const char* P[] = { "pgen", "pnew", "pnew0", "pnew1", "popen", "pclose", "pstop", "pdel", "pwith", "pread", "pwrite", "peof", "ptell",
+                             "pseek", "pflush", "pprint", "pscan", NULL };
+  for (int i = 0; P[i]; i++) if (!strcmp(P[i], op)) return 1;
+  return 0;
+}
+static void exec_proc(char** lines, size_t* ip, size_t hi, size_t i, const char* op, char** tok, int nt) {
+  char ex[256]; ex[0] = 0; char* e;
+  if (nt < 2) { O("bad-op"); return; }
+  if (!strcmp(op, "pgen")) {
+    if (nt != 4) { O("bad-op"); return; }
+    long k = strtol(tok[1], &e, 10); if (*e || k < 0 || k >= NPIN) { O("bad-op"); return; }
+    long long len = strtoll(tok[2], &e, 10); if (*e || len < 0 || len > PCAP) { O("bad-op"); return; }
+    unsigned long long seed = strtoull(tok[3], &e, 10); if (*e) { O("bad-op"); return; }
+    if (pbusy(C_CAT + (int)k, -1)) { O("pgen busy"); return; }
+    for (long long j = 0; j < len; j++) pin_data[k][j] = gen_byte(seed, (uint64_t)j);
+    pin_len[k] = (size_t)len; write_input((int)k);
+    O("pgen %ld len=%lld h=%llu", k, len, (unsigned long long)fnv(pin_data[k], (size_t)len));
+    return;
+  }
+  long ol = strtol(tok[1], &e, 10);
+  if (*e || ol < 0 || ol >= NPROC) { O("bad-op"); return; }
+  int o = (int)ol;
+  if (!strcmp(op, "pnew") || !strcmp(op, "pnew0") || !strcmp(op, "pnew1")) {
+    if (o < NPSTACK || pobjs[o]) { O("bad-op"); return; }
+    if (op[4] == '0' || op[4] == '1') {
+      if (nt != (op[4] == '0' ? 2 : 3)) { O("bad-op"); return; }
+      begin_op(); trk = 1;
+      if (op[4] == '0') V_TRY(r_exc, pobjs[o] = new(Process));
+      else {
+        long c = strtol(tok[2], &e, 10); if (*e || !cmd_ok((int)c)) { trk = 0; O("bad-op"); return; }
+        char ct[500]; cmd_text((int)c, "r", ct, sizeof ct);
+        V_TRY(r_exc, pobjs[o] = new(Process, $S(ct)));
+      }
+      trk = 0;
+      if (r_exc) pobjs[o] = NULL;
+      if (ncalls) X("sig=closed-not-refused line=%zu what=new(Process) with fewer than two arguments made the stdio calls (%s)", cur_line, callbuf);
+      if (pobjs[o]) {
+        X("sig=exc-mismatch line=%zu what=new(Process) with fewer than two arguments raised nothing (Process_New reads two)", cur_line);
+        var x2; trk = 1; V_TRY(x2, del(pobjs[o])); trk = 0; pobjs[o] = NULL;
+      }
+      pemit(o, op, "");
+      return;
+    }
+    if (nt != 4) { O("bad-op"); return; }
+    long c = strtol(tok[2], &e, 10);
+    if (*e || !cmd_ok((int)c) || !pmode_ok(tok[3])) { O("bad-op"); return; }
+    if (pbusy((int)c, o)) { O("pnew busy"); return; }
+    char ct[500]; cmd_text((int)c, tok[3], ct, sizeof ct);
+    begin_op(); trk = 1; V_TRY(r_exc, pobjs[o] = new(Process, $S(ct), $S(tok[3]))); trk = 0;
+    if (r_exc) pobjs[o] = NULL;
+    pmirror_open(o, (int)c, tok[3], "pnew", 0);
+    if (r_exc) pk[o].cmd = -1;
+    pemit(o, "pnew", "");
+    return;
+  }
+  if (!pobjs[o]) { O("bad-op"); return; }
+  int was_open = praw(o) != NULL;
+  int wr = was_open && pk[o].mode == 'w', rd = was_open && pk[o].mode == 'r';
+  if (!strcmp(op, "pdel")) {
+    if (o < NPSTACK || nt != 2 || pin_with[o] > 0) { O("bad-op"); return; }
+    begin_op(); trk = 1; V_TRY(r_exc, del(pobjs[o])); trk = 0;
+    pobjs[o] = NULL;
+    int fails = was_open ? pshadow_close(o, "pdel") : 0;
+    expect_exc("pdel", fails ? IOError : NULL);
+    if (!was_open && ncalls != 0) X("sig=closed-not-refused line=%zu what=del of a closed Process made %d stdio calls (%s)", cur_line, ncalls, callbuf);
+    pemit(o, "pdel", "");
+    return;
+  }
+  if (!strcmp(op, "popen")) {
+    if (nt != 4) { O("bad-op"); return; }
+    long c = strtol(tok[2], &e, 10);
+    if (*e || !cmd_ok((int)c) || !pmode_ok(tok[3])) { O("bad-op"); return; }
+    if (pbusy((int)c, o)) { O("popen busy"); return; }
+    char ct[500]; cmd_text((int)c, tok[3], ct, sizeof ct);
+    begin_op(); trk = 1; V_TRY(r_exc, sopen(pobjs[o], $S(ct), $S(tok[3]))); trk = 0;
+    pmirror_open(o, (int)c, tok[3], "popen", was_open);
+    pemit(o, "popen", "");
+    return;
+  }
+  if (!strcmp(op, "pclose")) { if (nt != 2) { O("bad-op"); return; } pclose_like(o, "pclose", 0); return; }
+  if (!strcmp(op, "pstop")) { if (nt != 2) { O("bad-op"); return; } pclose_like(o, "pstop", 1); return; }
+  if (!strcmp(op, "pwith")) { exec_pwith(lines, ip, hi, i, o, tok, nt); return; }
+  if (!strcmp(op, "pseek")) {
+    if (nt != 4) { O("bad-op"); return; }
+    long long off = strtoll(tok[2], &e, 10); if (*e) { O("bad-op"); return; }
+    int wh = !strcmp(tok[3], "set") ? SEEK_SET : !strcmp(tok[3], "cur") ? SEEK_CUR : !strcmp(tok[3], "end") ? SEEK_END : !strcmp(tok[3], "bad") ? 7 : -1;
+    if (wh < 0) { O("bad-op"); return; }
+    begin_op(); trk = 1; V_TRY(r_exc, sseek(pobjs[o], off, wh)); trk = 0;
+    if (!refused_if_closed(o, "pseek", was_open)) expect_exc("pseek", IOError);       /* a pipe cannot seek */
+    pemit(o, "pseek", "");
+    return;
+  }
+  if (!strcmp(op, "ptell") || !strcmp(op, "pflush") || !strcmp(op, "peof")) {
+    if (nt != 2) { O("bad-op"); return; }
+    if (op[1] == 'f' && rd) { O("pflush unsup"); return; }
+    begin_op(); trk = 1;
+    if (op[1] == 't') V_TRY(r_exc, r_ret = (long long)stell(pobjs[o]));
+    else if (op[1] == 'f') V_TRY(r_exc, sflush(pobjs[o]));
+    else V_TRY(r_exc, r_ret = seof(pobjs[o]) ? 1 : 0);
+    trk = 0;
+    if (!refused_if_closed(o, op, was_open)) {
+      if (op[1] == 't') expect_exc(op, IOError);
+      else if (op[1] == 'f') expect_exc(op, NULL);
+      else {
+        expect_exc(op, NULL);
+        int e2 = __real_feof(praw(o)) ? 1 : 0;
+        if (!r_exc && r_ret != e2) X("sig=eof-mismatch line=%zu what=seof returned %lld, feof on the pipe %d", cur_line, r_ret, e2);
+      }
+    }
+    if (op[1] != 'f') snprintf(ex, sizeof ex, "ret=%lld", r_exc ? -1LL : r_ret);
+    pemit(o, op, ex);
+    return;
+  }
+  if (!strcmp(op, "pread")) {
+    if (nt != 3) { O("bad-op"); return; }
+    long long size = strtoll(tok[2], &e, 10);
+    if (*e || size < 0 || size > MAXIO) { O("bad-op"); return; }
+    memset(buf1, 0xA5, (size_t)size);
+    begin_op(); trk = 1; V_TRY(r_exc, r_ret = (long long)sread(pobjs[o], buf1, (size_t)size)); trk = 0;
+    size_t got = 0;
+    if (!refused_if_closed(o, "pread", was_open)) {
+      /* reference: the bytes the command prints are the input file's */
+      const unsigned char* inp = (rd && pk[o].cmd >= C_CAT) ? pin_data[pk[o].cmd - C_CAT] : NULL;
+      size_t inlen = inp ? pin_len[pk[o].cmd - C_CAT] : 0;
+      size_t left = inlen > (size_t)pk[o].pos ? inlen - (size_t)pk[o].pos : 0;
+      size_t want_ret = (rd && size > 0 && (size_t)size <= left) ? 1 : 0;
+      got = rd ? ((size_t)size <= left ? (size_t)size : left) : 0;
+      expect_exc("pread", (wr && size != 0) ? IOError : NULL);
+      if (!r_exc && (size_t)r_ret != want_ret) X("sig=ret-mismatch line=%zu what=sread on the pipe returned %lld, expected %zu", cur_line, r_ret, want_ret);
+      if (got && memcmp(buf1, inp + pk[o].pos, got) != 0) X("sig=bytes-mismatch line=%zu what=the %zu bytes read through the Process differ from the bytes `cat` was given", cur_line, got);
+      pk[o].pos += (long)got;
+    }
+    snprintf(ex, sizeof ex, "ret=%lld got=%zu h=%llu", r_exc ? -1LL : r_ret, got, (unsigned long long)fnv(buf1, got));
+    pemit(o, "pread", ex);
+    return;
+  }
+  if (!strcmp(op, "pwrite")) {
+    if (nt != 4) { O("bad-op"); return; }
+    long long len = strtoll(tok[2], &e, 10); if (*e || len < 0 || len > PCAP) { O("bad-op"); return; }
+    unsigned long long seed = strtoull(tok[3], &e, 10); if (*e) { O("bad-op"); return; }
+    if (wr && (pk[o].cmd < C_CAT || pk[o].wlen + (size_t)len > PCAP)) { O("pwrite unsup"); return; }
+    for (long long j = 0; j < len; j++) buf1[j] = gen_byte(seed, (uint64_t)j);
+    begin_op(); trk = 1; V_TRY(r_exc, r_ret = (long long)swrite(pobjs[o], buf1, (size_t)len)); trk = 0;
+    if (!refused_if_closed(o, "pwrite", was_open)) {
+      size_t want_ret = (wr && len > 0) ? 1 : 0;
+      expect_exc("pwrite", (want_ret != 1 && len != 0) ? IOError : NULL);
+      if (!r_exc && (size_t)r_ret != want_ret) X("sig=ret-mismatch line=%zu what=swrite on the pipe returned %lld, expected %zu", cur_line, r_ret, want_ret);
+      if (wr && len > 0) { memcpy(pk[o].w + pk[o].wlen, buf1, (size_t)len); pk[o].wlen += (size_t)len; }
+    }
+    snprintf(ex, sizeof ex, "ret=%lld", r_exc ? -1LL : r_ret);
+    pemit(o, "pwrite", ex);
+    return;
+  }
+  if (!strcmp(op, "pprint")) {
+    if (nt != 3) { O("bad-op"); return; }
+    long long v = strtoll(tok[2], &e, 10); if (*e) { O("bad-op"); return; }
+    if (rd || (wr && (pk[o].cmd < C_CAT || pk[o].wlen + 32 > PCAP))) { O("pprint unsup"); return; }
+    begin_op(); trk = 1; V_TRY(r_exc, r_ret = print_to(pobjs[o], 0, "%$ ", $I(v))); trk = 0;
+    if (!refused_if_closed(o, "pprint", was_open)) {
+      int a = snprintf((char*)pk[o].w + pk[o].wlen, 32, "%li ", (long)v);
+      expect_exc("pprint", NULL);
+      if (!r_exc && r_ret != a) X("sig=ret-mismatch line=%zu what=print_to on the pipe returned %lld, sprintf wrote %d", cur_line, r_ret, a);
+      pk[o].wlen += (size_t)a;
+    }
+    snprintf(ex, sizeof ex, "ret=%lld", r_exc ? -1LL : r_ret);
+    pemit(o, "pprint", ex);
+    return;
+  }
+  if (!strcmp(op, "pscan")) {
+    if (nt != 2) { O("bad-op"); return; }
+    if (was_open) { O("pscan unsup"); return; }
+    var v = $I(-777);
+    begin_op(); trk = 1; V_TRY(r_exc, r_ret = scan_from(pobjs[o], 0, "%$ ", v)); trk = 0;
+    refused_if_closed(o, "pscan", 0);
+    pemit(o, "pscan", "val=-777");
+    return;
+  }
+  O("bad-op");
+}
+
+/* ------------------------------------------------------------------------------------------ drop: the collector closes
+ * The third way a stream gets closed: an unreachable `new(File, …)` is swept (GC_Sweep → File_Del → File_Close).  The slot
+ * is cleared by a helper that is not inlined (so that no copy of the pointer stays in the frames that remain), the stack
+ * below is zeroed, then GC_Mark + GC_Sweep run with the interposition recording.  Oracle: the collection made exactly
+ * the call `del` would have made — fclose of the handle the File held (none for a closed File) — and the handle is not
+ * live afterwards (sig=collector-close).  A conservative collector may still see a stale word: then (I line
+ * `drop-fallback`) the harness deletes the object itself so that the history stays comparable. */
+static uintptr_t hidden_ptr;
+#define HIDE_KEY ((uintptr_t)0x5A5A5A5A5A5A5A5AULL)
+__attribute__((noinline, no_sanitize("address"))) static void scrub_stack(void) {
+  volatile uint64_t sbuf[8192];
+  for (size_t k = 0; k < 8192; k++) sbuf[k] = 0;
+  __asm__ volatile("" ::: "memory");
+}
+__attribute__((noinline)) static void drop_state(int o, int* exists, int* sh, int* was_open, int* hid, int* full) {
+  *exists = objs[o] != NULL; *sh = 0; *was_open = 0; *hid = 0; *full = 0;
+  if (!*exists) return;
+  *sh = shared_state(o);
+  FILE* fp = raw(o); *was_open = fp != NULL;
+  if (fp && live_index(fp) >= 0) *hid = live_id[live_index(fp)];
+  *full = bk[o].file == F_FULL;
+}
+__attribute__((noinline)) static void drop_hide(int o) { hidden_ptr = (uintptr_t)objs[o] ^ HIDE_KEY; objs[o] = NULL; }
+__attribute__((noinline)) static void force_gc(void) {
+  struct GC* gc = GC_Current();
+  scrub_stack();
+  GC_Mark(gc);
+  GC_Sweep(gc);
+}
+__attribute__((noinline)) static int handle_live(int hid) { for (int k = 0; k < nlive; k++) if (live_id[k] == hid) return 1; return 0; }
+__attribute__((noinline)) static void drop_fallback(void) { var x = (var)(hidden_ptr ^ HIDE_KEY); var e2; V_TRY(e2, del(x)); if (e2 && !r_exc) r_exc = e2; }
+static int n_drop = 0, n_drop_fallback = 0;
+/* returns 1 when the line was a drop op (handled) */
+static int exec_drop(char* line_copy) {
+  char* tok[8]; int nt = 0;
+  for (char* p = strtok(line_copy, " "); p && nt < 8; p = strtok(NULL, " ")) tok[nt++] = p;
+  if (nt < 1 || strcmp(tok[0], "drop") != 0) return 0;
+  if (nt < 2) { O("bad-op"); return 1; }
+  char* e; long ol = strtol(tok[1], &e, 10);
+  if (*e || ol < 0 || ol >= NOBJ) { O("bad-op"); return 1; }
+  int o = (int)ol, exists, sh, was_open, hid, full;
+  drop_state(o, &exists, &sh, &was_open, &hid, &full);
+  if (!exists) { O("bad-op"); return 1; }
+  if (sh) { O("drop unsup"); return 1; }
+  if (o < NSTACK || nt != 2 || in_with[o] > 0) { O("bad-op"); return 1; }
+  if (full) { O("drop unsup"); return 1; }
+  drop_hide(o);
+  begin_op(); trk = 1; V_TRY(r_exc, force_gc()); trk = 0;
+  n_drop++;
+  if (was_open && handle_live(hid) && ncalls == 0) {
+    n_drop_fallback++;
+    I("drop-fallback line=%zu the conservative collector still saw the object: deleted by the harness", cur_line);
+    trk = 1; drop_fallback(); trk = 0;
+  } else if (!was_open && ncalls == 0) {
+    /* a closed File: whether or not it was swept there is nothing to see; release it if it was not (best effort, no effect on stdio) */
+  }
+  char want[32]; snprintf(want, sizeof want, "fclose:%d", hid);
+  if (was_open ? strcmp(callbuf, want) != 0 : ncalls != 0)
+    X("sig=collector-close line=%zu what=collecting an unreachable File made the stdio calls (%s), expected %s", cur_line, ncalls ? callbuf : "-", was_open ? want : "none");
+  if (was_open && handle_live(hid)) X("sig=collector-close line=%zu what=the handle %d of a collected File is still open", cur_line, hid);
+  hidden_ptr = 0;
+  int rc = was_open ? twin_close(o) : 0;
+  expect_exc("drop", rc != 0 ? IOError : NULL);
+  emit(o, "drop", "");
+  return 1;
+}
+
 static void exec_op(char** lines, size_t* ip, size_t hi) {
   size_t i = *ip; *ip = i + 1;
   cur_line = i + 1;
   char line[2048]; snprintf(line, sizeof line, "%s", lines[i]);
   if (strlen(lines[i]) >= sizeof line) { O("bad-op"); return; }
+  if (!strncmp(line, "drop", 4)) { if (exec_drop(line)) return; snprintf(line, sizeof line, "%s", lines[i]); }
   char* tok[8]; int nt = 0;
   for (char* p = strtok(line, " "); p && nt < 8; p = strtok(NULL, " ")) tok[nt++] = p;
   if (nt == 0) { O("bad-op"); return; }
   const char* op = tok[0];
   char ex[256]; ex[0] = 0;
+
+  if (is_proc_op(op)) { exec_proc(lines, ip, hi, i, op, tok, nt); return; }
 
   if (!strcmp(op, "dump") || !strcmp(op, "rm")) {
     if (nt != 2) { O("bad-op"); return; }
@@ -869,7 +1326,10 @@ static void exec_op(char** lines, size_t* ip, size_t hi) {
 
 static void run_range(char** lines, size_t lo, size_t hi) {
   size_t i = lo;
-  while (i < hi) exec_op(lines, &i, hi);
+  while (i < hi) {
+    if (!strncmp(lines[i], "drop", 4)) scrub_stack();      /* the frame exec_op is about to use holds no word of an earlier op */
+    exec_op(lines, &i, hi);
+  }
 }
 
 static void rm_dir(const char* dir) {
@@ -910,6 +1370,11 @@ int main(int argc, char** argv) {
   for (int o = 0; o < NOBJ; o++) { objs_local[o] = NULL; bk[o].file = -1; bk[o].twin = NULL; }
   objs_local[0] = $(File, NULL); objs_local[1] = $(File, NULL); objs_local[2] = $(File, NULL); objs_local[3] = $(File, NULL);
   objs = objs_local;
+  var pobjs_local[NPROC];
+  for (int o = 0; o < NPROC; o++) { pobjs_local[o] = NULL; pk[o].cmd = -1; pk[o].w = malloc(PCAP + 64); pk[o].wlen = 0; }
+  pobjs_local[0] = $(Process, NULL); pobjs_local[1] = $(Process, NULL);
+  pobjs = pobjs_local;
+  for (int k = 0; k < NPIN; k++) { pin_data[k] = malloc(PCAP + 16); pin_len[k] = 0; write_input(k); }
   I("tmpdir=%s BUFSIZ=%d ops=%zu", tmpdir, BUFSIZ, n);
 
   run_range(lines, 0, n);
@@ -924,11 +1389,22 @@ int main(int argc, char** argv) {
     trk = 0;
     twin_close(o);
   }
+  for (int o = NPROC - 1; o >= 0; o--) {
+    if (!pobjs[o]) continue;
+    begin_op(); trk = 1;
+    if (o >= NPSTACK) { V_TRY(r_exc, del(pobjs[o])); pobjs[o] = NULL; }
+    else if (praw(o)) V_TRY(r_exc, sclose(pobjs[o]));
+    trk = 0;
+  }
+  check_paccounting();
+  if (n_popen_ok != n_pclose) X("sig=close-count line=%zu what=%d successful popen but %d pclose after everything was closed or deleted", cur_line, n_popen_ok, n_pclose);
   check_accounting();
   /* handles overwritten by assign stay open for ever; fcloses of dead handles are the second close of one fopen (both KF) */
   if (n_fopen_ok - nleaked != n_fclose) X("sig=close-count line=%zu what=%d successful fopen but %d fclose after everything was closed or deleted", cur_line, n_fopen_ok, n_fclose);
   if (nleaked || n_fclose_dead) X("sig=" KF_ALIAS " line=%zu what=%d successful fopen but %d calls of fclose (%d on a handle that was already closed, %d handles never closed) after everything was closed or deleted", cur_line, n_fopen_ok, n_fclose + n_fclose_dead, n_fclose_dead, nleaked);
   O("end fopen=%d fail=%d fclose=%d live=%d", n_fopen_ok, n_fopen_fail, n_fclose + n_fclose_dead, nlive);
+  I("drops=%d drop_fallbacks=%d", n_drop, n_drop_fallback);
+  O("pend popen=%d fail=%d pclose=%d plive=%d", n_popen_ok, n_popen_fail, n_pclose, nplive);
   for (int i = 0; i < ndead; i++) __real_fclose(dead_fp[i]);
   return 0;
 }
